@@ -172,8 +172,23 @@ def handleVerdict : List Sx → Sx
     | _, _, _ => Sx.bad
   | _ => Sx.bad
 
+/-- `(bc-open-fault "Cls" …)` → `(ok (miss))` | `(ok (raises …))`: `open` in FileSystemBytecodeCache.load_bytecode fails -/
+def handleOpenFault : List Sx → Sx
+  | cs => match Sx.mapM? Sx.toStr? cs with
+    | some e => Sx.ok (encRes (fsOpenFails (Code := Nat) fsOpenCaught e))
+    | none => Sx.bad
+
+/-- `(bc-escapes)` → OSError classes that would escape from the rename step / from `open` in load_bytecode, by the
+    handlers read from the source (counterexample finders) -/
+def handleEscapes : List Sx → Sx
+  | _ => Sx.ok (.list [
+      Sx.ofStrs (osErrorClasses.filter (fun c => (dumpRun "t" "e" [] (.atReplace (mroOf c)) dumpSteps []).2.isSome)),
+      Sx.ofStrs (osErrorClasses.filter (fun c => fsOpenFails (Code := Nat) fsOpenCaught (mroOf c) != .miss)),
+      .list (osErrorClasses.map fun c => .list [.str c, Sx.ofStrs (mroOf c)])])
+
 def handlers : List (String × (List Sx → Sx)) :=
   [("bc-load", handleLoad), ("bc-crash", handleCrash), ("bc-fault", handleFault), ("bc-history", handleHistory), ("bc-verdict", handleVerdict),
-   ("bc-sites", handleSites)]
+   ("bc-sites", handleSites), ("bc-open-fault", handleOpenFault),
+   ("bc-escapes", handleEscapes)]
 
 end JinjaV.Wire.BcCache
